@@ -48,6 +48,16 @@ def check_file(case: dict, acc: Any, fstrings: bool) -> None:
         return
     acc.nontrivial(("lib", rel))
     acc.ran()
+    if fstrings:
+        # the tokens of the f-strings too (statement by statement, so that a known finding in one statement hides no other)
+        from ..oracle import cpy_tok
+
+        r = cpy_tok.compare(src, allow_fstrings=True)
+        if r is not None and r[0] == "diff":
+            for stmt in pylib.statements(src, ref):
+                r2 = cpy_tok.compare(stmt, allow_fstrings=True) if stmt[:1] not in " \t\f" else None
+                if r2 is not None and r2[0] == "diff":
+                    acc.violation(r2[1], {"src": stmt, "mode": "exec", "from": rel}, r2[2], text=stmt)
     v = _verdict(src, ref)
     if v is None:
         acc.count("lib:equal")
